@@ -113,6 +113,10 @@ BOUNDARY = [
     "schema.str.alphabet('').len(0)", "schema.str.len(0)", "schema.float.min(0.5).max(0.5)",
     "schema.float.min(0.15).max(0.35).precision(1)", "schema.float.min(0.57).max(0.58).precision(2)",
     "schema.float.precision(2)", "schema.float.min(-1e308).max(1e308)", "schema.float(2.5).precision(1)",
+    # no multiple of 10**-precision inside [min, max]: precision without a fixed value constrains nothing
+    "schema.float.min(0.11).max(0.12).precision(1)", "schema.float.min(0.15).max(0.15).precision(1)",
+    "schema.float.min(0.123).max(0.127).precision(2)", "schema.float.min(-0.19).max(-0.11).precision(1)",
+    "schema.float.min(0.05).max(0.06).precision(1)", "schema.list(schema.float.min(2.31).max(2.39).precision(1)).len(2)",
     "schema.float.min(1e-09).max(1e+308).precision(2)", "schema.float.min(0.29).precision(1)",
     "schema.any(schema.int, schema.int.min(1).max(0))", "schema.list(schema.int.min(1).max(0))",
     "schema.dict({'a': schema.int, optional('b'): schema.int.min(1).max(0)})",
